@@ -234,7 +234,7 @@ namespace Givaro {
         }
         else {
             neg(R, P);
-            _domain.sub(R[0],Val, P[0]);
+            _domain.addin(R[0],Val); // R[0] is -P[0]; R may be the same object as P
         }
         return setdegree(R);
     }
